@@ -403,3 +403,60 @@ def wlev_pdist(rng):
     for _ in range(60):
         xs = [rng.choice(_WPOOL) for _ in range(rng.randint(2, 5))]
         yield {"self": _wl(rng), "instances": seq([S(x) for x in xs], "list")}
+
+
+# ---- frame scopes: representative calls of functions checked for purity only (C20) ------------------------------
+FRAME_SCOPES = {}
+
+
+def frame_scope(name):
+    def deco(f):
+        FRAME_SCOPES[name] = f
+        return f
+    return deco
+
+
+@frame_scope("pyrepseq.plotting.similarity_clustermap")
+def _fs_clustermap(rng):
+    BUILD_NS.setdefault("_mpl_agg", __import__("matplotlib").use("Agg"))
+    yield {"df": py("pd.DataFrame({'cdr3a': ['CAVSF', 'CAVSW', 'CALSF', 'CAASF'], 'cdr3b': ['CASSF', 'CASSY', 'CASTF', 'CASSF']})")}
+
+
+@scope("pcdelta_calls")
+def pcdelta_calls(rng):
+    pool = ["", "A", "AB", "BA", "ABC", "AAB", "B", "ABCD", "AB", "A"]
+    for _ in range(400):
+        xs = [rng.choice(pool) for _ in range(rng.randint(2, 6))]
+        ys = [rng.choice(pool) for _ in range(rng.randint(1, 5))]
+        bins = rng.choice([NONE, I(0), py("np.array([0, 1, 2, 4])"), py("np.array([0, 2, 3])")])
+        rec = {"seqs": seq([S(x) for x in xs], "list"), "seqs2": rng.choice([NONE, seq([S(y) for y in ys], "list")]),
+               "metric": rng.choice([NONE, py("prs.metric.Levenshtein()"), py("prs.metric.WeightedLevenshtein(1, 2, 1)")]),
+               "bins": bins, "normalize": {"t": "const", "v": rng.choice([True, False])},
+               "pseudocount": rng.choice([{"t": "const", "v": 0.0}, R(0.5), R(2)]), "maxseqs": NONE}
+        if rng.random() < 0.2:
+            rec["seqs"] = table({"CDR3A": xs, "CDR3B": list(reversed(xs))})
+            rec["seqs2"] = NONE
+            rec["metric"] = NONE
+        yield rec
+
+
+@scope("downsample_calls")
+def downsample_calls(rng):
+    for _ in range(200):
+        xs = [rng.choice(["A", "B", "C", "AB"]) for _ in range(rng.randint(0, 6))]
+        kind = rng.choice(["list", "ndarray", "table", "none"])
+        s_ = NONE if kind == "none" else (table({"CDR3A": xs, "CDR3B": xs}) if kind == "table" else seq([S(x) for x in xs], kind))
+        yield {"seqs": s_, "maxseqs": rng.choice([NONE, I(rng.randint(0, 7))])}
+
+
+@scope("default_metric_calls")
+def default_metric_calls(rng):
+    yield {"input_data": seq([S("A")], "list")}
+    for cols in (["CDR3A", "CDR3B"], ["CDR3A", "TRAV"], ["TRBV", "CDR3B"], ["Epitope"], ["CDR3B", "CDR3A", "x"]):
+        yield {"input_data": table({c: ["CASSF"] for c in cols})}
+
+
+@scope("load_background_calls")
+def load_background_calls(rng):
+    yield {"return_bins": {"t": "const", "v": True}}
+    yield {"return_bins": {"t": "const", "v": False}}
